@@ -1030,10 +1030,18 @@ pub fn c07(ctx: &mut Ctx) {
         n2,
         c07_world_case,
     );
+    ctx.run_cases(
+        "eof-call-kinds",
+        "generated valid EOF containers (C26's builder) executed under OSAKA: EXTCALL / EXTDELEGATECALL / EXTSTATICCALL to EOF, legacy, empty and precompile targets (incl. the rejected EXTDELEGATECALL to a non-EOF target), EOFCREATE incl. failing ones; oracle: journal depth at every end notification equals the depth at its start and is balanced at the end; non-trivial = an EXT*CALL or EOFCREATE was executed",
+        crate::eofcheck::built_strategy,
+        ctx.tier.pick(30_000, 600_000),
+        crate::eofcheck::c07_eof_case,
+    );
+    ctx.expect_labels("eof-call-kinds", &["ran:EXTCALL", "ran:EXTDELEGATECALL", "ran:EXTSTATICCALL", "ran:EOFCREATE"]);
     ctx.expect_labels(
         "depth-probe",
         &["prefix:ok", "prefix:revert", "prefix:invalid", "prefix:oog", "prefix:insufficient-balance", "prefix:precompile-error", "prefix:precompile-oog", "prefix:static-violation", "prefix:value-overflow", "prefix:collision", "prefix:0xEF-code", "prefix:initcode-too-large", "prefix:code-too-large"],
     );
-    ctx.assumptions.push("the probe transaction uses gas limit 2^40 (needed to keep >= 1 call's worth of gas at depth 1024 under the 63/64 rule); EOF call kinds are exercised in C26's executed containers under the same depth monitor".into());
+    ctx.assumptions.push("the probe transaction uses gas limit 2^40 (needed to keep >= 1 call's worth of gas at depth 1024 under the 63/64 rule); EOF call kinds are covered by the depth monitor (part eof-call-kinds), not by the 1024-level probe".into());
     let _ = GenCfg::default();
 }
